@@ -672,3 +672,10 @@ func init() {
 		},
 	})
 }
+
+// rule addenda (rounds 9-12): what the evidence says about the coverage of a run
+func init() {
+	if p := registry["C16"]; p != nil {
+		p.Rule += " Every rt case goes on with the object after printing: Int() copies, wire encodings, Negate / Negate back, SetInt64 and the value back — the text must follow the value each time; numerics off the wire (DECN / NUMN / money) are printed, parsed back and compared both ways."
+	}
+}
